@@ -26,7 +26,7 @@ def run(rep):
     rep.explanation = EXPLANATION
     rep.trusted = ["rustc nightly MIR construction and type checking", "HashMap/HashSet insert/remove semantics", "tables/c09.toml"]
     rep.assumptions = ["ConnectionState and ConnectionEvent are not exported (witness W5)"]
-    configs = ["ws"]
+    configs = [engine.config_for("C09")]
     if rep.tier == "thorough":
         configs.append("broker-stat")
     tab = tomllib.load(open(os.path.join(engine.VERIF, "tables", "c09.toml"), "rb"))
@@ -37,7 +37,7 @@ def run(rep):
             rep.fail("C09-R1", "<config>", cfg, "extraction config %s lacks feature `statistics` (features: %s)" % (cfg, feats))
             continue
         r1(rep, prog, tab, cfg)
-        if cfg == "ws":
+        if cfg == configs[0]:
             r2(rep, prog, tab)
             r3(rep, prog)
             r4(rep, prog)
